@@ -554,7 +554,7 @@ def stream_iso(ctx, n_rt, n_text, n_arith, zones=None):
                 ctx.compare('dt-iso', dict(key, what='format'), r.get('text'), m_fmt.get('text'))
             ctx.compare('dt-iso', dict(key, what='format-date'), r.get('datetext'), m_fmt.get('date'))
             ref = r.get('ref')
-            if isinstance(r.get('text'), str) and ref is not None and ref.get('zi') == ref.get('libc'):
+            if isinstance(r.get('text'), str) and ref is not None and ref.get('libc') in (None, ref.get('zi')):
                 ctx.compare('dt-iso', dict(key, what='parse', text=r['text']), r.get('p'), m_parse.get('dt'))
             ctx.compare('dt-iso', dict(key, what='parse-date', text=r.get('datetext')), r.get('pd'), m_pdate.get('dt'))
             # the property on the real code
@@ -574,7 +574,8 @@ def stream_iso(ctx, n_rt, n_text, n_arith, zones=None):
             ref = r.get('ref')
             sp.case(key, nontrivial=True, tags=[zone, 'valid-' + kind[0] if kind else 'invalid',
                                                 'null' if r.get('p') is None else 'parsed', 'from-valid-list' if t in valid_set else 'other'])
-            ctx.compare('dt-iso-text', key, r.get('p'), m.get('dt'))
+            if ref is None or ref.get('libc') in (None, ref.get('zi')):
+                ctx.compare('dt-iso-text', key, r.get('p'), m.get('dt'))
             if r.get('lib') != r.get('p'):
                 ctx.witness('iso-parse-entry-points', key, r.get('p'), r.get('lib'))
             if kind is None:
@@ -583,11 +584,9 @@ def stream_iso(ctx, n_rt, n_text, n_arith, zones=None):
             elif kind[0] == 'date':
                 if r.get('p') != kind[1]:
                     ctx.witness('iso-parse-date', key, kind[1], r.get('p'))
-            elif ref is not None and ref.get('zi') == ref.get('libc'):
+            elif ref is not None and ref.get('libc') in (None, ref.get('zi')):
                 if r.get('p') != ref['local']:
                     ctx.witness('iso-parse-value', key, ref['local'], r.get('p'))
-            elif ref is None and r.get('p') is not None and not (t.startswith('0001') or t.startswith('9999')):
-                ctx.witness('iso-parse-value', key, 'null (instant outside years 1..9999)', r.get('p'))
 
         # ---- arithmetic inside the zone ----
         mresps = ctx.driver.batch([{'op': 'add', 'dt': oracle_new(a) or [1, 1, 1, 0, 0, 0, 0], 'n': n} for a, n, _ in ar_cases])
